@@ -14,6 +14,7 @@ var checks = map[string]func(run *ev.Run){
 	"C01": genlab.CheckC01,
 	"C18": genlab.CheckC18,
 	"C19": genlab.CheckC19,
+	"C16": genlab.CheckC16,
 	"C02": genlab.CheckC02,
 	"C03": genlab.CheckC03,
 	"C04": genlab.CheckC04,
